@@ -100,9 +100,11 @@ Definition run_C15 (i : term) : term :=
     end
   else TL [TS "unknown-op"].
 
-(* classes: 17 = F17 (MinInt64 is never auto-scaled); 900.. = the exact value is within float noise
-   of a rounding/selection boundary: there the SPECIFICATION (stated over exact rationals) is not
-   applied to the float result; the correspondence with the float model is exact everywhere *)
+(* classes: 17 = F17 (MinInt64 is never auto-scaled); 900 = the exact value is within float noise
+   of a unit-SELECTION boundary of auto-scaling: there the clause "largest unit keeping the magnitude
+   >= 1" (stated over exact rationals) is not applied to the float result.  Rounding of the printed
+   digits needs no such class: the read-back / monotonicity / percentage clauses carry float64's
+   relative precision in their tolerance.  The correspondence with the float model is exact everywhere *)
 Definition cls_C15 (i : term) : list Z :=
   let op := gs (gn i 0) in
   let x := gz (gn i 1) in
@@ -111,16 +113,12 @@ Definition cls_C15 (i : term) : list Z :=
     (if (x =? min_int64)%Z && is_auto to && match family_of uts from with Some _ => true | None => false end
      then [17%Z] else [])
     ++ (if is_auto to && near_auto x from then [900%Z] else [])
-    ++ (if String.eqb op "label" && near_label x from to then [901%Z] else [])
+
   else if String.eqb op "mono" then
     let u := gs (gn i 3) in
     (if ((x =? min_int64)%Z || (gz (gn i 2) =? min_int64)%Z) && match family_of uts u with Some _ => true | None => false end then [17%Z] else [])
     ++ (if near_auto x u || near_auto (gz (gn i 2)) u then [900%Z] else [])
-    ++ (if near_label x u "auto" || near_label (gz (gn i 2)) u "auto" then [901%Z] else [])
-  else if String.eqb op "pct" then
-    let r := pct_ratio x (gz (gn i 2)) in
-    if near_half r || Qle_bool (Qabs (r - 1)) eps || Qle_bool (Qabs (r - (9995#100))) eps || Qle_bool (Qabs (r - (10005#100))) eps
-    then [901%Z] else []
+
   else [].
 
 Definition skipped (i : term) : bool := existsb (fun c => (900 <=? c)%Z) (cls_C15 i).
@@ -232,6 +230,31 @@ Fixpoint rows_pct_ok (es : list (string * Z)) (rows : list term) (sum total : Z)
       end
   end.
 
+(* -unit=minimum: "the largest unit that keeps the magnitude at or above one", read on the smallest
+   non-zero entry of the report (after divide_by): expressed in the one unit the report prints, that
+   entry is at least 1/100 (selectOutputUnit's documented allowance when the total calls for a larger
+   unit), unless the report is already in the family's finest unit.  Sign plays no role. *)
+Definition min_unit_ok (es : list (string * Z)) (unit : string) (ratio : Q) (rows : list term) : bool :=
+  match family_of uts unit with
+  | None => true
+  | Some (ut, fu) =>
+      let mn0 := fold_right (fun e a => let x := Z.abs (snd e) in
+                                        if (0 <? x)%Z && ((a =? 0)%Z || (x <? a)%Z) then x else a) 0%Z es in
+      let mn := ratio_value ratio mn0 in   (* when divide_by takes it to 0 nothing is demanded *)
+      match find (fun r => negb (String.eqb (gs (gn r 0)) "0")) rows with
+      | None => true
+      | Some r =>
+          let '(_, u) := split_num (gs (gn r 0)) "" in
+          match find (fun w => String.eqb (u_name w) u) (ut_default ut :: ut_units ut) with
+          | None => false
+          | Some w =>
+              forallb (fun w' => Qle_bool (u_factor w) (u_factor w')) (ut_units ut)
+              || (mn =? 0)%Z
+              || Qle_bool ((1 # 100) * (1 - eps)) (inject_Z mn * u_factor fu / u_factor w)
+          end
+      end
+  end.
+
 Definition spec_C15 (i o : term) : bool :=
   let op := gs (gn i 0) in
   let x := gz (gn i 1) in
@@ -265,19 +288,14 @@ Definition spec_C15 (i o : term) : bool :=
         end
     | None => true
     end
-  else if String.eqb op "pct" then
-    let r := pct_ratio x (gz (gn i 2)) in
-    match pct_class r with
-    | 0%Z => String.eqb (gs o) "  100%"
-    | 1%Z => Qle_bool (Qabs (parse_dec (trim_suffix "%" (trim_prefix " " (trim_prefix " " (gs o)))) - r)) ((1 # 199) + eps * r)
-    | _ => true
-    end
+  else if String.eqb op "pct" then pct_ok x (gz (gn i 2)) (gs o)
   else if String.eqb op "toptext" then
     (* every entry is listed once, and its flat%, running sum% and cum% are the absolute ratios of
        the UNSCALED values to the total of absolute values, whatever unit and divide_by are in force *)
     let es := map (fun e => (gs (gn e 0), gz (gn e 1))) (gl (gn i 1)) in
     String.eqb (gs (gn o 0)) "ok" && (List.length (gl (gn o 1)) =? List.length es)%nat &&
-    rows_pct_ok es (gl (gn o 1)) 0%Z (fold_right (fun e a => (Z.abs (snd e) + a)%Z) 0%Z es)
+    rows_pct_ok es (gl (gn o 1)) 0%Z (fold_right (fun e a => (Z.abs (snd e) + a)%Z) 0%Z es) &&
+    (negb (String.eqb (gs (gn i 3)) "minimum") || min_unit_ok es (gs (gn i 2)) (to_Q (gn i 4)) (gl (gn o 1)))
   else if String.eqb op "common" then
     (* harmonising picks the FINEST unit of the list (so that no profile loses precision): every
        input unit is a whole-or-larger multiple of the chosen one *)
